@@ -27,7 +27,8 @@ RULE = (
     "Delay/Result/RetriesProperties, ArgsBucket, ResultBucket with durations up to 100 years at microsecond precision; Redis "
     "message names of distinct keys differ and parse back. Sequence mode: one worker processes 2-6 jobs enqueued one after the "
     "other, several reusing an explicit args_id (and message id) with other arguments, some failing once and retried; every "
-    "execution must receive its own job's arguments. non-trivial = a non-default setting or a structured value was used; "
+    "execution must receive its own job's arguments; burst variant: everything enqueued before the worker starts, the same "
+    "explicit message id on two queues (two distinct messages). non-trivial = a non-default setting or a structured value was used; "
     "distinct = distinct scenario fingerprints (the interleaving hardly varies)."
 )
 SHRINK_LISTS = ("jobs",)
@@ -149,7 +150,19 @@ def gen(rng, broker, tier):
             jobs.append({"args": {"v": _rand_value(rng), "w": _rand_value(rng)},
                          "args_id": rng.choice([None, ids[0], ids[0], ids[1]]), "fail_first": rng.random() < 0.25,
                          "id": rng.choice([None, None, "same"])})
-        return {"mode": "sequence", "jobs": jobs, "conv": rng.choice(["basic", "pydantic"]),
+        burst = rng.random() < 0.4
+        if burst:
+            # all jobs are enqueued before the worker takes the first: the same explicit message id on two different queues
+            # (two distinct messages), no shared args ids
+            seen_q = set()
+            for j in jobs:
+                j["args_id"] = None
+                j["fail_first"] = False
+                j["queue"] = rng.choice(["q", "q2"])
+                j["id"] = "same" if j["queue"] not in seen_q and rng.random() < 0.8 else None
+                if j["id"]:
+                    seen_q.add(j["queue"])
+        return {"mode": "sequence", "jobs": jobs, "burst": burst, "conv": rng.choice(["basic", "pydantic"]),
                 "buckets": rng.choice(["mem", "mem", "redis"]) if broker == "redis" else "mem",
                 "knobs": {"step_cost": rng.choice([0, 1]), "net": {"lat_lo": 50, "lat_hi": rng.choice([300, 3000]),
                                                                     "frag_p": rng.choice([0, 0.5]), "max_seg": rng.choice([1 << 30, 64])}}}
@@ -299,10 +312,17 @@ async def _sequence(sim, sc, out):
     router = r.Router()
     conv = {"basic": r.BasicConverter, "pydantic": r.PydanticConverter}[sc["conv"]]
     router.actor(act, name="act", queue="q", converter=conv, retry_policy=lambda retry_number=1: timedelta(0))
+
+    async def act2(i=None, v=None, w=None):
+        return await act(i, v, w)
+
+    act2.__annotations__ = {"i": int, "v": Any, "w": Any}
+    router.actor(act2, name="act2", queue="q2", converter=conv, retry_policy=lambda retry_number=1: timedelta(0))
     await sim.loop.spawn("p", r.Queue("q", _connection=connp).declare())
+    await sim.loop.spawn("p", r.Queue("q2", _connection=connp).declare())
     n_exec = sum(2 if j["fail_first"] else 1 for j in sc["jobs"])
     w = r.Worker(routers=[router], messages_limit=n_exec, graceful_shutdown_time=3.0, handle_signals=[], _connection=connw)
-    wt = sim.loop.spawn("w", w.run())
+    wt = None if sc.get("burst") else sim.loop.spawn("w", w.run())
 
     async def producer():
         for i, j in enumerate(sc["jobs"]):
@@ -312,9 +332,12 @@ async def _sequence(sim, sc, out):
                 kw["args_id"] = j["args_id"]
             if j["id"] is not None:
                 kw["id_"] = "fixed-id"
-            job = r.Job("act", queue="q", args=args, use_args_bucketer=True, retries=1 if j["fail_first"] else 0,
-                        store_result=False, _connection=connp, **kw)
+            qn = j.get("queue", "q")
+            job = r.Job("act" if qn == "q" else "act2", queue=qn, args=args, use_args_bucketer=True,
+                        retries=1 if j["fail_first"] else 0, store_result=False, _connection=connp, **kw)
             await job.enqueue()
+            if sc.get("burst"):
+                continue
             need = 2 if j["fail_first"] else 1
             for _ in range(400):
                 if sum(1 for c in calls if c[0] == i) >= need:
@@ -322,7 +345,11 @@ async def _sequence(sim, sc, out):
                 await asyncio.sleep(0.05)
             await asyncio.sleep(0.05)
 
-    await sim.loop.spawn("p", producer())
+    if sc.get("burst"):
+        await sim.loop.spawn("p", producer())  # the worker starts only after everything was enqueued
+        wt = sim.loop.spawn("w", w.run())
+    else:
+        await sim.loop.spawn("p", producer())
     try:
         await asyncio.wait_for(asyncio.shield(wt), timeout=30)
     except asyncio.TimeoutError:
